@@ -189,6 +189,27 @@ impl DcpsDomainParticipant {
         Ok(())
     }
 
+    #[tracing::instrument(skip(self, runtime))]
+    pub fn delete_subscriber_contained_entities(
+        &mut self,
+        subscriber_handle: &InstanceHandle,
+        runtime: &impl DdsRuntime,
+    ) -> DdsResult<()> {
+        let Some(subscriber) = self
+            .domain_participant
+            .user_defined_subscriber_list
+            .iter_mut()
+            .find(|x| &x.instance_handle == subscriber_handle)
+        else {
+            return Err(DdsError::AlreadyDeleted);
+        };
+
+        for data_reader in core::mem::take(&mut subscriber.data_reader_list) {
+            self.announce_deleted_data_reader(data_reader, runtime);
+        }
+        Ok(())
+    }
+
     #[tracing::instrument(skip(self))]
     pub fn lookup_data_reader(
         &mut self,
